@@ -576,3 +576,36 @@ Example C03_example_shrink_hyps :
   GcIso.srel GcIsoEx3.cx_W GcIsoEx3.cx_vm GcIsoEx3.cx_vm /\ GcIsoSched2.gc_natural GcIsoEx3.cx_vm /\
   GcIsoSched3.gc_ready GcIsoEx3.cx_vm.
 Proof. exact (conj GcIsoEx3.cx_srel (conj GcIsoEx3.cx_natural GcIsoEx3.cx_ready)). Qed.
+
+(* a collection keeps the three state conditions of [gc_ready]: gc_natural (no allocated cell
+   appears or changes), nothing reachable is free, no Used mark left *)
+Theorem C03_collects_ready3 : forall s s',
+  GcIsoSched3.ready3 s -> GcIsoSched3.collects s s' -> GcIsoSched3.ready3 s'.
+Proof. exact GcIsoSched3.collects_ready3. Qed.
+Print Assumptions C03_collects_ready3.
+
+(* the schedule theorem with the invariant instantiated: no hypothesis about the collector's
+   effect is left.  Remaining hypotheses, OPEN as facts of the machine: (d) [ready3] is kept by
+   run_one; the marking fuels suffice (a collection of a [ready3] state returns). *)
+Theorem C03_sched_unobservable_ready3 : forall ob,
+  (forall s s', GcIsoSched3.ready3 s -> Vm.run_one ob s = VmBase.ROk false s' -> GcIsoSched3.ready3 s') ->
+  (forall s, GcIsoSched3.ready3 s -> exists s', GcIsoSched3.collects s s') ->
+  forall sched s1 s2,
+  GcIsoSched.related s1 s2 -> GcIsoSched3.ready3 s2 -> GcIsoSched2.plain_ok_all ob (length sched) s1 ->
+  match GcIsoSched.run_plain ob (length sched) s1 with
+  | VmBase.ROk b s1' => exists s2', GcIsoSched.run_sched ob GcIsoSched3.collects sched s2 (VmBase.ROk b s2') /\ GcIsoSched.related s1' s2'
+  | VmBase.RErr e msg s1' => exists s2', GcIsoSched.run_sched ob GcIsoSched3.collects sched s2 (VmBase.RErr e msg s2') /\ GcIsoSched.related s1' s2'
+  | _ => True
+  end.
+Proof. exact GcIsoSched3.sched_unobservable_ready3. Qed.
+Print Assumptions C03_sched_unobservable_ready3.
+
+(* OPEN (c03d): (d) gc_natural / ready3 as an invariant of run_one for the instruction set of
+   [covered_all].  Not proved, and as stated (for EVERY ready3 state) probably too strong:
+   [gc_natural] allows %acc = VPair a d (a cell constructor that compiled code never leaves in a
+   register), and MOV %acc into a global slot then yields a slot that is not [slot_ok].  The
+   invariant to be proved is [ready3] strengthened by what compiled code guarantees; this is why
+   C03_sched_unobservable_natural is parametric in the invariant [Nv]. *)
+Definition C03_ready3_step_stmt (ob : N -> VmBase.M vcell) : Prop :=
+  forall s s', GcIsoSched3.ready3 s -> GcIsoAll.covered_all ob s ->
+    Vm.run_one ob s = VmBase.ROk false s' -> GcIsoSched3.ready3 s'.
